@@ -6,6 +6,9 @@ pub mod c04;
 pub mod c05;
 pub mod c06;
 pub mod c07;
+pub mod c08;
+pub mod c09;
+pub mod days;
 pub mod c11;
 pub mod c14;
 pub mod c18;
@@ -19,6 +22,8 @@ pub fn meta(prop: &str) -> Option<Meta> {
         "C05" => c05::meta(),
         "C06" => c06::meta(),
         "C07" => c07::meta(),
+        "C08" => c08::meta(),
+        "C09" => c09::meta(),
         "C11" => c11::meta(),
         "C14" => c14::meta(),
         "C18" => c18::meta(),
@@ -35,6 +40,8 @@ pub fn run(prop: &str, cfg: &Cfg, rep: &mut Rep) {
         "C05" => c05::run(cfg, rep),
         "C06" => c06::run(cfg, rep),
         "C07" => c07::run(cfg, rep),
+        "C08" => c08::run(cfg, rep),
+        "C09" => c09::run(cfg, rep),
         "C11" => c11::run(cfg, rep),
         "C14" => c14::run(cfg, rep),
         "C18" => c18::run(cfg, rep),
